@@ -24,6 +24,13 @@ impl Rng {
 }
 
 pub const KEYS: &[&str] = &["a", "b", "c", "d", "key space", "k-1", "Z_9", "\u{e9}t\u{e9}", "", "0x"];
+/// member names of generated *documents*, in source form (they are placed between quotes as they are):
+/// plain, spaced, non-ASCII, and every escape form incl. a surrogate pair, an escaped quote at the end
+/// and names ending in an escaped backslash; no two of them denote the same name
+pub const DKEYS: &[&str] = &[
+    "a", "b", "c", "d", "key space", "k-1", "Z_9", "\u{e9}t\u{e9}", "\\u0041", "\\ud83d\\ude00", "q\\\"", "\\\\", "e\\\\",
+    "\\/\\n",
+];
 
 // ---------------------------------------------------------------- shapes
 
@@ -249,7 +256,10 @@ pub enum J {
 }
 
 pub const NUMS: &[&str] = &["0", "-0", "1", "12", "-3.5", "1e3", "2E-2", "0.0", "123456789", "1.5e+10"];
-pub const STRS: &[&str] = &["", "x", "hello world", "\\n", "\\u00e9", "\u{e9}", "\\\"q\\\"", "a\\\\b", "\u{1F600}", "/"];
+pub const STRS: &[&str] = &[
+    "", "x", "hello world", "\\n", "\\u00e9", "\u{e9}", "\\\"q\\\"", "a\\\\b", "\u{1F600}", "/", "x\\\\", "\\\\", "\\\\\\\\", "C:\\\\tmp\\\\",
+    "\\ud834\\udd1e", "\\\\\\\"",
+];
 
 impl J {
     /// Renders with a formatting style: 0 compact, 1 spaces, 2 newlines+tabs, 3 CRLF.
@@ -520,4 +530,23 @@ pub fn hex_doc(d: &J, style: usize) -> String {
 
 pub fn sx(s: &JsonShape) -> String {
     sexp(s)
+}
+
+/// a document given as JSON text (plain ASCII member names and strings)
+pub fn parse_j(text: &str) -> J {
+    fn conv(v: &serde_json::Value) -> J {
+        let src = |s: &str| {
+            let q = serde_json::to_string(s).unwrap();
+            q[1..q.len() - 1].to_string()
+        };
+        match v {
+            serde_json::Value::Null => J::Null,
+            serde_json::Value::Bool(b) => J::Bool(*b),
+            serde_json::Value::Number(n) => J::Num(n.to_string()),
+            serde_json::Value::String(s) => J::Str(src(s)),
+            serde_json::Value::Array(xs) => J::Arr(xs.iter().map(conv).collect()),
+            serde_json::Value::Object(ms) => J::Obj(ms.iter().map(|(k, x)| (src(k), conv(x))).collect()),
+        }
+    }
+    conv(&serde_json::from_str(text).expect("parse_j: fixed text"))
 }
